@@ -1,0 +1,10 @@
+//go:build verif
+
+// Contracts for govc (contract-based deductive verification); comment-only, compiled only with -tags verif.
+package grpc
+
+// error formatting only: no effect on the modelled state (assumed); an error stays an error
+//@ func RepackGRPCErrorWithDetails
+//@   trusted
+//@   modifies nothing
+//@   ensures err != nil ==> result != nil
